@@ -20,7 +20,7 @@ RULE = ("histories (tree; `group` run; edits at a chosen logical instant; dedupe
         "dropped something; distinct = (instant, edit kinds, operation, format)")
 
 EDITS = ["rewrite-same-len", "rewrite-other-len", "append", "truncate", "delete", "delete-recreate", "to-directory",
-         "to-dangling-symlink", "to-symlink-to-fresh-file", "touch"]
+         "to-dangling-symlink", "to-symlink-to-fresh-file", "to-symlink-to-old-file-of-other-length", "touch"]
 
 
 def apply_edit(kind, p, r, d, k):
@@ -58,6 +58,14 @@ def apply_edit(kind, p, r, d, k):
         tgt = os.path.join(fse(d), b"fresh-target-%d" % k)
         with open(tgt, "wb") as f:
             f.write(fresh(L))
+        os.symlink(tgt, p)
+    elif kind == "to-symlink-to-old-file-of-other-length":
+        # `ln -sf /some/old/file p`: what fclones sees through the link is an old regular file, of another length
+        os.unlink(p)
+        tgt = os.path.join(fse(d), b"old-target-%d" % k)
+        with open(tgt, "wb") as f:
+            f.write(fresh(L + 1 + r.randrange(50)))
+        os.utime(tgt, (1_500_000_000, 1_500_000_000))
         os.symlink(tgt, p)
     elif kind == "touch":
         os.utime(p, None)
@@ -100,13 +108,21 @@ def _run(r, scratch, i):
              "t2-contents": "hash.done.contents:" + os.path.basename(X).decode(), "t3": "hashing.done", "t3b": "report.timestamp",
              "t4": None}[instant]
     edit_kinds = [r.choice(EDITS) for _ in victims]
-    pd = os.path.join(d, "pause")
-    os.makedirs(pd)
-    env = gm.env_for(o, home, dict({"FCLONES_VERIF_PAUSE": point, "FCLONES_VERIF_PAUSE_DIR": pd} if point else {}, TZ=tz))
     # with --transform (or --no-check-size on the dedupe command) the length comparison is off and only the
     # modification time protects a changed file
     gtransform = "cat" if r.random() < 0.15 else None
-    argv = [fse(common.fclones_bin())] + gm.group_argv(dict(o, transform=gtransform, isolate=(nroots == 2)), spec["roots"], fmt)
+    no_check_size = r.random() < 0.15
+    if gtransform or no_check_size:
+        # ... so a link to an old file would be an mtime-preserving replacement, which is outside the guarantee
+        edit_kinds = ["to-symlink-to-fresh-file" if e == "to-symlink-to-old-file-of-other-length" else e for e in edit_kinds]
+    # a fifth of the reports are made with -S (the dedupe commands then inherit it from the header)
+    gsym = r.random() < 0.2
+    if gsym and not (gtransform or no_check_size) and r.random() < 0.5:
+        edit_kinds[0] = "to-symlink-to-old-file-of-other-length"
+    pd = os.path.join(d, "pause")
+    os.makedirs(pd)
+    env = gm.env_for(o, home, dict({"FCLONES_VERIF_PAUSE": point, "FCLONES_VERIF_PAUSE_DIR": pd} if point else {}, TZ=tz))
+    argv = [fse(common.fclones_bin())] + gm.group_argv(dict(o, transform=gtransform, isolate=(nroots == 2), symbolic_links=gsym), spec["roots"], fmt)
     p = subprocess.Popen(argv, env=env, cwd=troot, stdin=subprocess.DEVNULL, stdout=subprocess.PIPE, stderr=subprocess.PIPE)
     reached = False
     if point:
@@ -150,7 +166,7 @@ def _run(r, scratch, i):
     cfg = {}
     if r.random() < 0.3:
         cfg["priority"] = [r.choice(dd.PRIORITIES)]
-    if r.random() < 0.15:
+    if no_check_size:
         cfg["no_check_size"] = True
     log = os.path.join(d, "shim.log")
     senv = shimlog.shim_env(log, [troot] + ([target] if target else []), ficlone=(op == "dedupe"))
@@ -191,14 +207,16 @@ def _run(r, scratch, i):
                                   witness, sig=(sigi, tuple(ek), op))]
     ev, fired, junk = shimlog.parse(log)
     nops = len(dd.log_ops(ev, op))
-    content_changed = any(e in ("rewrite-same-len", "rewrite-other-len", "append", "truncate", "delete-recreate", "to-symlink-to-fresh-file")
+    content_changed = any(e in ("rewrite-same-len", "rewrite-other-len", "append", "truncate", "delete-recreate", "to-symlink-to-fresh-file",
+                                "to-symlink-to-old-file-of-other-length")
                           for e in edit_kinds)
-    sig = (sigi, tuple(sorted(set(edit_kinds))), op, fmt, tz, bool(gtransform), bool(cfg.get("no_check_size"))) if content_changed else None
+    sig = (sigi, tuple(sorted(set(edit_kinds))), op, fmt, tz, bool(gtransform), bool(cfg.get("no_check_size")), gsym) if content_changed else None
     skipped = dres.err_text().count("Could not determine files to drop") + dres.err_text().count("Skipping file")
     return [ok(sig, {"instant": instant, "edits": edit_kinds, "op": op, "fmt": fmt, "TZ": tz, "ops_done": nops, "skip_warnings": skipped},
                {"instants": [sigi], "edit_kinds": edit_kinds, "dedupe_ops_done": nops, "groups_or_files_skipped": skipped,
                 "pause_reached": 1 if reached else 0, "time_zones": [tz],
-                "runs_with_length_check_off": 1 if gtransform or cfg.get("no_check_size") else 0})]
+                "runs_with_length_check_off": 1 if gtransform or cfg.get("no_check_size") else 0,
+                "reports_made_with_symbolic_links_option": 1 if gsym else 0})]
 
 
 def main(tier, seed, cases=None):
